@@ -2,6 +2,8 @@ import TD.C05.LemLoop
 /-! C05: simulation between the abstract reader and the reader model on an encoded file. -/
 namespace TD.C05
 
+variable {cfg : Cfg} [Pad0 cfg]
+
 def stAt (L : Layout) (rs : List Bytes) (i : Nat) : ES := stAfterRecs L ES.init (rs.take i)
 
 theorem stAt_pos (L : Layout) (rs : List Bytes) (i : Nat) : (stAt L rs i).pos = tellOf L rs i := by
@@ -64,7 +66,7 @@ def Rel (L : Layout) (rs : List Bytes) (f : Bytes) (a : AState) (s : Rd) : Prop 
 /-- reading a header at the start of record `k` (or at the end of the file) -/
 theorem headAt {L : Layout} {rs : List Bytes} {f : Bytes} (g : Good L rs) {s : Rd} (k : Nat) (cur : Option Nat)
     (hk : k ≤ rs.length) (h : CStart L f (stAt L rs k) (rs.drop k) s) (hcur : s.startOfLr = curVal L rs cur) :
-    ∃ s', readHead f s = .ok s' ∧ Rel L rs f (openRec rs ⟨.start k, cur⟩) s'
+    ∃ s', readHead cfg f s = .ok s' ∧ Rel L rs f (openRec rs ⟨.start k, cur⟩) s'
       ∧ (k < rs.length → s'.hasLd = true ∧ s'.isEOF = false ∧ s'.mustReadHead = false)
       ∧ (¬ k < rs.length → s'.hasLd = false ∧ s'.isEOF = true ∧ f.drop s'.pos = []
             ∧ (L.tif ≠ .off → s'.tif.tifNext = s'.pos)) := by
@@ -72,7 +74,7 @@ theorem headAt {L : Layout} {rs : List Bytes} {f : Bytes} (g : Good L rs) {s : R
   by_cases hlt : k < rs.length
   · have hdrop := drop_recAt rs k hlt
     rw [hdrop] at h
-    obtain ⟨c, cs, s', hc, e1, hin, e2⟩ := openRecC g.valid h
+    obtain ⟨c, cs, s', hc, e1, hin, e2⟩ := openRecC (cfg := cfg) g.valid h
     have hcne := (chunks_all L.maxPayload hmp _ _ (Nat.le_refl _) c (by rw [hc]; simp)).1
     have hclen : 0 < c.length := List.length_pos_iff.mpr hcne
     refine ⟨s', e1, ?_, fun _ => ⟨?_, hin.eof, hin.mrh⟩, fun hh => absurd hlt hh⟩
@@ -95,7 +97,7 @@ theorem headAt {L : Layout} {rs : List Bytes} {f : Bytes} (g : Good L rs) {s : R
     simp only [stAfterRecs] at hf
     have hb := h.bl
     unfold ES.BackLe at hb
-    obtain ⟨s', e1, hp⟩ := readHead_eof (f := f) L s (stAt L rs k) h.tm h.tl h.pos hd (by omega) hf
+    obtain ⟨s', e1, hp⟩ := readHead_eof (cfg := cfg) (f := f) L s (stAt L rs k) h.tm h.tl h.pos hd (by omega) hf
     refine ⟨s', e1, ?_, fun hh => absurd hh hlt, fun _ => ⟨?_, hp.eof, hp.atEnd, hp.tn⟩⟩
     · simp only [openRec, hlt, if_false]
       exact ⟨by rw [hp.sol]; exact hcur, hp.tm, hp.eof, hp.atEnd, hp.tn⟩
@@ -167,7 +169,7 @@ theorem st2_eq {L : Layout} {rs : List Bytes} {z : Z} {i : Nat} (hi : i < rs.len
 theorem inside_go {L : Layout} {rs : List Bytes} {f : Bytes} (g : Good L rs) {s : Rd} {i off : Nat}
     {cur : Option Nat} (acc : Acc) (n : Int)
     (hrel : Rel L rs f ⟨.inside i off, cur⟩ s) :
-    ∃ s', readOrSkip f s acc n
+    ∃ s', readOrSkip cfg f s acc n
         = .ok (s', acc.app (if n < 0 then (recAt rs i).drop off else ((recAt rs i).drop off).take n.toNat))
       ∧ Rel L rs f (if n < 0 then ⟨.start (i + 1), cur⟩
                     else ⟨.inside i (off + min n.toNat ((recAt rs i).length - off)), cur⟩) s' := by
@@ -177,13 +179,13 @@ theorem inside_go {L : Layout} {rs : List Bytes} {f : Bytes} (g : Good L rs) {s 
   simp only [hin.eof, Bool.false_eq_true, if_false]
   by_cases hn : n < 0
   · simp only [hn, if_true]
-    obtain ⟨s', e1, h1, e2⟩ := allLoop_ok g.valid z.cs z s acc (f.length + 1) rfl hin (fuel_ok hin)
+    obtain ⟨s', e1, h1, e2⟩ := allLoop_ok (cfg := cfg) g.valid z.cs z s acc (f.length + 1) rfl hin (fuel_ok hin)
     refine ⟨s', ?_, ?_, h1.tm, by omega, ?_⟩
     · rw [e1, hoff, zf1]
     · rw [e2]; exact hsol
     · rw [st2_eq hi hst hch, hrrs] at h1; exact h1
   · simp only [hn, if_false]
-    obtain ⟨s', z', e1, h1, a1, e2⟩ := sizedLoop_ok g.valid z.cs z s acc (f.length + 1) 0 n.toNat rfl hin
+    obtain ⟨s', z', e1, h1, a1, e2⟩ := sizedLoop_ok (cfg := cfg) g.valid z.cs z s acc (f.length + 1) 0 n.toNat rfl hin
       (fuel_ok hin) (Nat.zero_le _)
     refine ⟨s', ?_, ?_, h1.tm, hi, z', h1, ?_, ?_, ?_, ?_⟩
     · rw [e1, hoff, zf1]; rfl
@@ -204,15 +206,15 @@ theorem rs_core {L : Layout} {rs : List Bytes} {f : Bytes} (g : Good L rs) {a : 
     (acc : Acc) (n : Int) (hrel : Rel L rs f a s) (hne : a.ph ≠ .eof) :
     ∃ s', Rel L rs f (absRead rs a n).1 s' ∧
       (match (absRead rs a n).2 with
-       | some b => ∃ s1, preamble f s = .ok (s1, true) ∧ readOrSkip f s1 acc n = .ok (s', acc.app b)
-       | none => preamble f s = .ok (s', false)) := by
+       | some b => ∃ s1, preamble cfg f s = .ok (s1, true) ∧ readOrSkip cfg f s1 acc n = .ok (s', acc.app b)
+       | none => preamble cfg f s = .ok (s', false)) := by
   obtain ⟨ph, cur⟩ := a
   cases ph with
   | eof => exact absurd rfl hne
   | start k =>
     obtain ⟨hsol, htm, hk, hst⟩ := hrel
-    obtain ⟨s1, e1, hrel1, hA, hB⟩ := headAt g k cur hk hst hsol
-    have hpre : preamble f s = (if s1.hasLd then .ok (s1, true) else .ok (s1, false)) := by
+    obtain ⟨s1, e1, hrel1, hA, hB⟩ := headAt (cfg := cfg) g k cur hk hst hsol
+    have hpre : preamble cfg f s = (if s1.hasLd then .ok (s1, true) else .ok (s1, false)) := by
       unfold preamble
       simp only [hst.eof, Bool.false_eq_true, if_false, hst.mrh, if_true, e1]
       by_cases hlt : k < rs.length
@@ -222,7 +224,7 @@ theorem rs_core {L : Layout} {rs : List Bytes} {f : Bytes} (g : Good L rs) {a : 
     · have hrne : (recAt rs k) ≠ [] := g.rne _ (by rw [drop_recAt rs k hlt] at hst; unfold recAt; simp [hlt])
       have hlen : 0 < (recAt rs k).length := List.length_pos_iff.mpr hrne
       simp only [openRec, hlt, if_true] at hrel1
-      obtain ⟨s', e2, hrel2⟩ := inside_go g acc n hrel1
+      obtain ⟨s', e2, hrel2⟩ := inside_go (cfg := cfg) g acc n hrel1
       have hnot : ¬ (0 ≥ (recAt rs k).length) := by omega
       by_cases hn : n < 0
       · have habs : absRead rs ⟨.start k, cur⟩ n = (⟨.start (k + 1), some k⟩, some ((recAt rs k).drop 0)) := by
@@ -250,7 +252,7 @@ theorem rs_core {L : Layout} {rs : List Bytes} {f : Bytes} (g : Good L rs) {a : 
         simp [absRead, openRec, hex]
       rw [habs]
       have hjc := zf3.mp (by rw [← hoff]; exact hex)
-      obtain ⟨s1, e1, h1, e2⟩ := finishRec hin hjc.1 hjc.2
+      obtain ⟨s1, e1, h1, e2⟩ := finishRec (cfg := cfg) hin hjc.1 hjc.2
       have hld : s.hasLd = false := by
         unfold Rd.hasLd
         rw [succ_of_inside hin, hin.ldLen, hin.ldIndex, hjc.1, hjc.2]
@@ -269,10 +271,10 @@ theorem rs_core {L : Layout} {rs : List Bytes} {f : Bytes} (g : Good L rs) {a : 
           cases hcs : z.cs with
           | nil => exact absurd hcs this
           | cons x xs => simp
-      have hpre : preamble f s = .ok (s, true) := by
+      have hpre : preamble cfg f s = .ok (s, true) := by
         unfold preamble
         simp only [hin.eof, Bool.false_eq_true, if_false, hin.mrh, hld, not_true_eq_false]
-      obtain ⟨s', e2, hrel2⟩ := inside_go g acc n hrel0
+      obtain ⟨s', e2, hrel2⟩ := inside_go (cfg := cfg) g acc n hrel0
       by_cases hn : n < 0
       · have habs : absRead rs ⟨.inside i off, cur⟩ n = (⟨.start (i + 1), cur⟩, some ((recAt rs i).drop off)) := by
           simp [absRead, openRec, hex, hn]
@@ -302,8 +304,8 @@ theorem seek_sim {L : Layout} {rs : List Bytes} (g : Good L rs) {a : AState} {s 
 
 theorem read_sim {L : Layout} {rs : List Bytes} {f : Bytes} (g : Good L rs) {a : AState} {s : Rd}
     (hrel : Rel L rs f a s) (n : Int) (hne : a.ph ≠ .eof) :
-    ∃ s', readLrBytes f s n = .ok (s', (absRead rs a n).2) ∧ Rel L rs f (absRead rs a n).1 s' := by
-  obtain ⟨s', hrel', hm⟩ := rs_core g (.data []) n hrel hne
+    ∃ s', readLrBytes cfg f s n = .ok (s', (absRead rs a n).2) ∧ Rel L rs f (absRead rs a n).1 s' := by
+  obtain ⟨s', hrel', hm⟩ := rs_core (cfg := cfg) g (.data []) n hrel hne
   refine ⟨s', ?_, hrel'⟩
   unfold readLrBytes
   cases hb : (absRead rs a n).2 with
@@ -315,9 +317,9 @@ theorem read_sim {L : Layout} {rs : List Bytes} {f : Bytes} (g : Good L rs) {a :
 
 theorem skip_sim {L : Layout} {rs : List Bytes} {f : Bytes} (g : Good L rs) {a : AState} {s : Rd}
     (hrel : Rel L rs f a s) (n : Int) (hne : a.ph ≠ .eof) :
-    ∃ s', skipLrBytes f s n = .ok (s', match (absRead rs a n).2 with | some b => b.length | none => 0)
+    ∃ s', skipLrBytes cfg f s n = .ok (s', match (absRead rs a n).2 with | some b => b.length | none => 0)
       ∧ Rel L rs f (absRead rs a n).1 s' := by
-  obtain ⟨s', hrel', hm⟩ := rs_core g (.cnt 0) n hrel hne
+  obtain ⟨s', hrel', hm⟩ := rs_core (cfg := cfg) g (.cnt 0) n hrel hne
   refine ⟨s', ?_, hrel'⟩
   unfold skipLrBytes
   cases hb : (absRead rs a n).2 with
@@ -346,9 +348,9 @@ theorem absRead_inside_neg (rs : List Bytes) (i off : Nat) (cur : Option Nat) :
 
 theorem next_sim {L : Layout} {rs : List Bytes} {f : Bytes} (g : Good L rs) {a : AState} {s : Rd}
     (hrel : Rel L rs f a s) (hne : a.ph ≠ .eof) :
-    ∃ s' c, skipToNextLr f s = .ok (s', c) ∧ (absStep L rs a .next).2 = .count c
+    ∃ s' c, skipToNextLr cfg f s = .ok (s', c) ∧ (absStep L rs a .next).2 = .count c
       ∧ Rel L rs f (absStep L rs a .next).1 s' := by
-  obtain ⟨s1, e1, hrel1⟩ := skip_sim g hrel (-1) hne
+  obtain ⟨s1, e1, hrel1⟩ := skip_sim (cfg := cfg) g hrel (-1) hne
   obtain ⟨ph, cur⟩ := a
   cases ph with
   | eof => exact absurd rfl hne
@@ -358,7 +360,7 @@ theorem next_sim {L : Layout} {rs : List Bytes} {f : Bytes} (g : Good L rs) {a :
       rw [absRead_start_neg rs k cur hk hrne] at e1 hrel1
       simp only [] at e1 hrel1
       obtain ⟨hsol, htm, hk1, hst⟩ := hrel1
-      obtain ⟨s2, e2, hrel2, _, _⟩ := headAt g (k + 1) (some k) hk1 hst hsol
+      obtain ⟨s2, e2, hrel2, _, _⟩ := headAt (cfg := cfg) g (k + 1) (some k) hk1 hst hsol
       refine ⟨s2, (recAt rs k).length, ?_, ?_, ?_⟩
       · unfold skipToNextLr
         simp only [e1, hst.mrh, not_true_eq_false, and_false, if_false, e2]
@@ -367,7 +369,7 @@ theorem next_sim {L : Layout} {rs : List Bytes} {f : Bytes} (g : Good L rs) {a :
     · rw [absRead_start_end rs k cur hk] at e1 hrel1
       simp only [] at e1 hrel1
       obtain ⟨hsol, htm, heof, hend, htn⟩ := hrel1
-      obtain ⟨s2, e2, f1, f2, f3, f4, f5⟩ := readHead_atEnd (f := f) L s1 htm hend htn
+      obtain ⟨s2, e2, f1, f2, f3, f4, f5⟩ := readHead_atEnd (cfg := cfg) (f := f) L s1 htm hend htn
       refine ⟨s2, 0, ?_, ?_, ?_⟩
       · unfold skipToNextLr
         simp only [e1, ne_eq, not_true_eq_false, false_and, if_false, e2]
@@ -378,7 +380,7 @@ theorem next_sim {L : Layout} {rs : List Bytes} {f : Bytes} (g : Good L rs) {a :
     rw [absRead_inside_neg] at e1 hrel1
     simp only [] at hrel1
     obtain ⟨hsol, htm, hk1, hst⟩ := hrel1
-    obtain ⟨s2, e2, hrel2, _, _⟩ := headAt g (i + 1) cur hk1 hst hsol
+    obtain ⟨s2, e2, hrel2, _, _⟩ := headAt (cfg := cfg) g (i + 1) cur hk1 hst hsol
     refine ⟨s2, (recAt rs i).length - off, ?_, ?_, ?_⟩
     · unfold skipToNextLr
       by_cases hex : off ≥ (recAt rs i).length
@@ -398,7 +400,7 @@ def OpOK (rs : List Bytes) : Op → Prop
 
 theorem step_sim {L : Layout} {rs : List Bytes} (g : Good L rs) {a : AState} {s : Rd}
     (hrel : Rel L rs (encode L rs) a s) (op : Op) (hop : OpOK rs op) :
-    ∃ s', step (encode L rs) s (concOp L rs op) = (some s', (absStep L rs a op).2)
+    ∃ s', step cfg (encode L rs) s (concOp L rs op) = (some s', (absStep L rs a op).2)
       ∧ Rel L rs (encode L rs) (absStep L rs a op).1 s' := by
   cases op with
   | tell =>
@@ -413,7 +415,7 @@ theorem step_sim {L : Layout} {rs : List Bytes} (g : Good L rs) {a : AState} {s 
         have := hrel.2.2; rw [he] at this; exact this.1
       refine ⟨s, ?_, by simpa [absStep, he] using hrel⟩
       simp [concOp, step, readLrBytes, preamble, hs, absStep, he, errReply]
-    · obtain ⟨s', e1, h1⟩ := read_sim g hrel n he
+    · obtain ⟨s', e1, h1⟩ := read_sim (cfg := cfg) g hrel n he
       rcases hx : absRead rs a n with ⟨a', b'⟩
       rw [hx] at e1 h1
       cases b' with
@@ -425,7 +427,7 @@ theorem step_sim {L : Layout} {rs : List Bytes} (g : Good L rs) {a : AState} {s 
         have := hrel.2.2; rw [he] at this; exact this.1
       refine ⟨s, ?_, by simpa [absStep, he] using hrel⟩
       simp [concOp, step, skipLrBytes, preamble, hs, absStep, he, errReply]
-    · obtain ⟨s', e1, h1⟩ := skip_sim g hrel n he
+    · obtain ⟨s', e1, h1⟩ := skip_sim (cfg := cfg) g hrel n he
       rcases hx : absRead rs a n with ⟨a', b'⟩
       rw [hx] at e1 h1
       cases b' with
@@ -437,18 +439,18 @@ theorem step_sim {L : Layout} {rs : List Bytes} (g : Good L rs) {a : AState} {s 
         have := hrel.2.2; rw [he] at this; exact this.1
       refine ⟨s, ?_, by simpa [absStep, he] using hrel⟩
       simp [concOp, step, skipToNextLr, skipLrBytes, preamble, hs, absStep, he, errReply]
-    · obtain ⟨s', c, e1, e2, h1⟩ := next_sim g hrel he
+    · obtain ⟨s', c, e1, e2, h1⟩ := next_sim (cfg := cfg) g hrel he
       exact ⟨s', by simp only [concOp, step, e1, e2], h1⟩
 
 theorem run_sim {L : Layout} {rs : List Bytes} (g : Good L rs) : ∀ (ops : List Op) (a : AState) (s : Rd),
     Rel L rs (encode L rs) a s → (∀ op ∈ ops, OpOK rs op) →
-    run (encode L rs) (some s) (ops.map (concOp L rs)) = absRun L rs a ops := by
+    run cfg (encode L rs) (some s) (ops.map (concOp L rs)) = absRun L rs a ops := by
   intro ops
   induction ops with
   | nil => intro a s _ _; rfl
   | cons op ops ih =>
     intro a s hrel hok
-    obtain ⟨s', e1, h1⟩ := step_sim g hrel op (hok op (by simp))
+    obtain ⟨s', e1, h1⟩ := step_sim (cfg := cfg) g hrel op (hok op (by simp))
     simp only [List.map_cons, run, absRun, e1]
     rw [ih _ s' h1 (fun o ho => hok o (List.mem_cons_of_mem _ ho))]
 
